@@ -474,6 +474,7 @@ UNION_EXTRA: Dict[str, Tuple[Sp, str]] = {
     "disc(typeddict)": (disc("kind", (("ta", "TA"), ("tb", "TB")), TA, TB), ""),
     "disc(flatten)": (disc("type", (("DF", "DF"), ("DA", "DA")), DF, DA), ""),
     "disc(props)": (disc("type", (("DP", "DP"), ("DA", "DA")), DP, DA), ""),
+    "disc(addl)": (disc("type", (("DQ", "DQ"), ("DA", "DA")), obj("DQ", F("k", STR, default=V("''")), F("rest", mp(INT), default=Fy("dict"), properties=True)), DA), ""),
     "u(S2,FL)": (union(S2, FL), ""),
     "u(FL,S2)": (union(FL, S2), ""),
     "u(S2,S3)": (union(S2, S3), ""),
